@@ -40,7 +40,14 @@ SrcHosts == {"a.com", "s.a.com", "b.com", "a.co.uk", "b.co.uk", "co.uk", "1.2.3.
 Aliases == IF Big THEN {"script", "document", "websocket", "xhr", "foo"} ELSE {"script", "foo"}
 
 LowerStr(s) == Str(LowerS(Chars(s)))
-Text(x) == x.scheme \o "://" \o (IF x.userinfo = "" THEN "" ELSE x.userinfo \o "@") \o x.host
+\* Tabs and line breaks inside a URL are not part of it (WHATWG URL: they are removed before parsing): the host
+\* component of 'exa<TAB>mple.com' is 'example.com'.  A spelling <<p, t>> writes the text t after the p-th
+\* character of the host.
+Spellings == << <<0, "">>, <<2, "\t">>, <<1, "\n">>, <<3, "\r\n">>, <<0, "\t">>, <<4, "\t\t">> >>
+HostsSpelled == {"a.com", "s.a.co.uk", "bücher.a.com", "[::1]", "A.com"}
+Spelled(h, k) == LET cs == Chars(h) p == Spellings[k][1] IN
+                 Str(SubSeq(cs, 1, p)) \o Spellings[k][2] \o Str(SubSeq(cs, p + 1, Len(cs)))
+Text(x) == x.scheme \o "://" \o (IF x.userinfo = "" THEN "" ELSE x.userinfo \o "@") \o Spelled(x.host, x.spell)
            \o (IF x.port = "" THEN "" ELSE ":" \o x.port) \o x.rest
 
 IsIp(h) == (Chars(h)[1] = "[") \/ \A i \in 1..Len(Chars(h)) : Chars(h)[i] \in Digits \cup {"."}
@@ -60,10 +67,12 @@ Expect(x, s, a) ==
    type |-> IF sc \in {"ws", "wss"} THEN "websocket" ELSE TypeOf(a)]
 
 Parts == SetToSeqC(Schemes \X Ports)
-Init == stage = "seed" /\ part \in 1..Len(Parts) /\ u = [scheme |-> "", userinfo |-> "", host |-> "", port |-> "", rest |-> ""]
+Init == stage = "seed" /\ part \in 1..Len(Parts) /\ u = [scheme |-> "", userinfo |-> "", host |-> "", port |-> "", rest |-> "", spell |-> 1]
         /\ src = "" /\ alias = ""
 Next == /\ stage = "seed" /\ stage' = "case" /\ part' = part
-        /\ u' \in [scheme : {Parts[part][1]}, userinfo : UserInfos, host : HostsU, port : {Parts[part][2]}, rest : Rests]
+        /\ u' \in [scheme : {Parts[part][1]}, userinfo : UserInfos, host : HostsU, port : {Parts[part][2]}, rest : Rests, spell : {1}]
+                 \cup [scheme : {Parts[part][1]}, userinfo : {"", "u:p"}, host : HostsSpelled, port : {Parts[part][2]}, rest : {"/", "/p?q=1", ""},
+                       spell : 2..Len(Spellings)]
         /\ src' \in SrcHosts \cup {"", "%"}
         /\ alias' \in Aliases
 
